@@ -36,8 +36,7 @@ Print Assumptions parse_total_wire.
 
 (* the hand-written decoders of std/encoding: NameFromBytes, ComponentFromBytes (ReadComponent), ReadName through both
    readers (loop ends within remaining bytes + 1 iterations: HFuel unreachable); ParseNat is `Base.VarNum.nat_dec`, a
-   total function of the length.  (ReadPacket / ReadData / ReadInterest post-check the value of the generated Packet
-   parser with length-guarded indexing only; their totality is decode_total / decode_wire_total of that parser.) *)
+   total function of the length (handwritten_glue_total below, with ReadPacket / ReadData / ReadInterest). *)
 Theorem handwritten_total :
   (forall b : bytes, match name_from_bytes b with Ok _ => True | Err e => e <> E_FUEL | Panic _ => False end) /\
   (forall b : bytes, match comp_from_bytes b with Ok _ => True | Err e => e <> E_FUEL | Panic _ => False end) /\
@@ -46,6 +45,27 @@ Theorem handwritten_total :
      match w_read_name r with HOk _ _ | HEof _ | HErr _ => True | HPanic _ => False | HFuel => False end).
 Proof. exact (conj name_from_bytes_total (conj comp_from_bytes_total (conj b_read_name_total w_read_name_total))). Qed.
 Print Assumptions handwritten_total.
+
+(* ParseNat and the hand-written glue of std/ndn/spec_2022/spec.go on top of the generated Packet parser: ReadPacket
+   (type dispatch Data / Interest / LpPacket with the nil-member checks; LpPacket is unwrapped as far as spec.go does it:
+   only `Fragment == nil` is looked at), ReadData, ReadInterest and checkInterest (name present, signature needs
+   parameters, no digest component without parameters, `name[len(name)-1]` behind its `len(name) == 0` guard — the model
+   indexes with a Panic on an empty name, so the guard is what the theorem establishes).  `dok` is the outcome of the
+   SHA-256 comparison (an oracle bit: any value); `ix` are the member positions, any values (the check uses the translated
+   `spec2022_ix`).  For every schema, model, byte string / segment list: no panic and the loops end (no E_FUEL). *)
+Theorem handwritten_glue_total :
+  (forall b : bytes, parse_nat b =
+     if (Nat.eqb (length b) 1 || Nat.eqb (length b) 2 || Nat.eqb (length b) 4 || Nat.eqb (length b) 8)%bool then Some (be_val b) else None) /\
+  (forall ix dok sc mi (b : bytes),
+     match read_packet_b ix dok sc mi b with Ok _ => True | Err e => e <> E_FUEL | Panic _ => False end /\
+     match read_data_b ix sc mi b with Ok _ => True | Err e => e <> E_FUEL | Panic _ => False end /\
+     match read_interest_b ix dok sc mi b with Ok _ => True | Err e => e <> E_FUEL | Panic _ => False end) /\
+  (forall ix dok sc mi (segs : list bytes),
+     match read_packet_w ix dok sc mi segs with Ok _ => True | Err e => e <> E_FUEL | Panic _ => False end /\
+     match read_data_w ix sc mi segs with Ok _ => True | Err e => e <> E_FUEL | Panic _ => False end /\
+     match read_interest_w ix dok sc mi segs with Ok _ => True | Err e => e <> E_FUEL | Panic _ => False end).
+Proof. exact Hand.handwritten_glue_total. Qed.
+Print Assumptions handwritten_glue_total.
 
 (* allocation: `decode_alloc` adds up, along the parser's own run on the input, what every invoked field reader asks the
    allocator for (Alloc.v: the struct, make([]byte,l) / make(enc.Name,l/2+1) behind their length guard, io.CopyN's buffer,
